@@ -1609,11 +1609,18 @@ def c04_gen(tier, rng):
                         w = "OK E" if s2 == "OK" else s2
                 cases.append((G.script("H", ["set %s %s" % (hexs("a"), v0), "ev smv " + hexs(src), "dump"]),
                               {"kind": "history", "want": ["OK", w, A.dump()]}))
+    cases += c04_macro_cases()
     return cases
 
 
 def c04_oracle(case, out, model_out):
     m = case[1]
+    if m.get("kind") == "macro":
+        if "want" in m and out != m["want"]:
+            return "%s gives %s, setting the listed pairs in order on the abstract map gives %s" % (case[0], out, m["want"])
+        if "want_prefix" in m and not (out.startswith(m["want_prefix"]) and all(p in out for p in m["want_parts"]) and len(re.findall(r"=F[0-9a-f]{16}", out)) == m["count"]):
+            return "math_consts_context!() gives %s" % out[:300]
+        return None
     if m.get("kind") != "history" or out.startswith("PANIC"):
         return None
     steps = step_outputs(out)
@@ -1628,6 +1635,37 @@ def c04_oracle(case, out, model_out):
     if "CLONE-MISMATCH" in out or "ITER-MISMATCH" in out:
         return "clone independence / variable listing broken: " + out[-200:]
     return None
+
+
+def c04_macro_cases():
+    """context_map! / math_consts_context!: every pair is set in order, all are applied, the first error is returned"""
+    def run(pairs, with_fn=False):
+        A = AbsCtx()
+        first_err = None
+        for k, v in pairs:
+            r = A.set_value(k, parse_value(v))
+            if r != "OK" and first_err is None:
+                first_err = r
+        vs = ",".join("%s=%s" % (hexs(k), value_text(A.vars[k])) for k in sorted(A.vars, key=hexs))
+        return A, first_err, "OK CTX{%s;off=0} f(1)=%s" % (vs, "I1" if with_fn else "FunctionIdentifierNotFound(66)")
+    out = []
+    _, _, w = run([])
+    out.append(("0", w))
+    _, _, w = run([("a", "I1"), ("b", "F4004000000000000"), ("c", "S73")], with_fn=True)
+    out.append(("1", w))
+    _, e, _ = run([("a", "I1"), ("a", "F4004000000000000"), ("b", "I3")])
+    out.append(("2", e))
+    _, _, w = run([("a", "I1"), ("a", "I2"), ("t", "T()"), ("t", "T(E)")])
+    out.append(("3", w))
+    _, _, w = run([("E", "F%016x" % f_bits(math.e)), ("PI", "F%016x" % f_bits(math.pi))])
+    out.append(("5", w))
+    _, e, w = run([("x", "I1"), ("x", "B1"), ("y", "I2")])
+    out.append(("6", e + " " + w))
+    cases = [("MACRO\t" + k, {"kind": "macro", "impl_only": True, "want": w}) for k, w in out]
+    cases.append(("MACRO\t4", {"kind": "macro", "impl_only": True, "want_prefix": "OK CTX{45=F%016x," % f_bits(math.e),
+                               "want_parts": ["5049=F%016x" % f_bits(math.pi), "544155=F%016x" % f_bits(math.tau), "535152545f32=F%016x" % f_bits(math.sqrt(2)),
+                                              "465241435f50495f32=F%016x" % f_bits(math.pi / 2), ";off=0} f(1)=FunctionIdentifierNotFound(66)"], "count": 19}))
+    return cases
 
 
 PROPS["C04"] = {
